@@ -98,7 +98,7 @@ func execute(c *hx.Case, p program, choose func(enabled []int, last int) int, ti
 }
 
 // execute2 runs one schedule; aba reports the P23 signature: some Entry performed Open->HalfOpen although the
-// breaker had been (re-)opened after that Entry had started.
+// breaker, after that Entry had started, was taken out of Open by another operation and opened again.
 func execute2(c *hx.Case, p program, choose func(enabled []int, last int) int, tick func() uint64, maxTicks int) (verdictOut string, aba bool) {
 	hx.Reset(hx.Epoch)
 	lis := &listener{}
@@ -348,9 +348,15 @@ func execute2(c *hx.Case, p program, choose func(enabled []int, last int) int, t
 	}
 	for _, ch := range changes {
 		if ch.from == model.Open && ch.to == model.HalfOpen && ch.op != nil && ch.op.kind == oEntry {
-			for _, ch2 := range changes {
-				if ch2.to == model.Open && ch2.step > ch.op.s0 && ch2.step < ch.step {
-					aba = true
+			// ... although, after that Entry had started, ANOTHER operation took the breaker out of Open (became the probe) and
+			// the breaker was opened again: the Entry's CAS succeeds on a later Open period than the one it evaluated
+			for _, ch1 := range changes {
+				if ch1.from == model.Open && ch1.op != ch.op && ch1.step > ch.op.s0 && ch1.step < ch.step {
+					for _, ch2 := range changes {
+						if ch2.to == model.Open && ch2.step > ch1.step && ch2.step < ch.step {
+							aba = true
+						}
+					}
 				}
 			}
 		}
@@ -499,6 +505,12 @@ func basePrograms() []program {
 		// closed, one short: two tasks complete held entries with errors, a third enters
 		ps = append(ps, program{strategy: model.ErrorCount, probeNum: probe, retry: 5, start: 0, preHeld: []int{1, 1, 0}, tasks: [][]int{{oExitErr}, {oExitErr}, {oEntry}}})
 		ps = append(ps, program{strategy: model.ErrorRatio, probeNum: probe, retry: 5, start: 0, preHeld: []int{1, 0}, tasks: [][]int{{oExitErr}, {oEntry, oEntry}}})
+		// the same shapes for every strategy (each strategy has its own TryPass and completion code)
+		for _, st := range []int{model.ErrorCount, model.ErrorRatio, model.SlowRequestRatio} {
+			ps = append(ps, program{strategy: st, probeNum: probe, retry: 5, start: 0, preHeld: []int{1, 0}, tasks: [][]int{{oExitErr}, {oEntry}}})
+			ps = append(ps, program{strategy: st, probeNum: probe, retry: 5, start: 2, preHeld: []int{0, 0}, tasks: [][]int{{oExitErr}, {oEntry}}})
+			ps = append(ps, program{strategy: st, probeNum: probe, retry: 5, start: 2, preHeld: []int{0, 0}, tasks: [][]int{{oExitOK}, {oEntry}}})
+		}
 		// open, deadline passed: two tasks race for the probe
 		ps = append(ps, program{strategy: model.ErrorCount, probeNum: probe, retry: 5, start: 1, early: 0, preHeld: []int{0, 0}, tasks: [][]int{{oEntry, oExitErr}, {oEntry}}})
 		ps = append(ps, program{strategy: model.ErrorCount, probeNum: probe, retry: 5, start: 1, early: 1, preHeld: []int{0, 0}, tasks: [][]int{{oEntry}, {oEntry}}})
@@ -514,6 +526,15 @@ func basePrograms() []program {
 			for _, probeEnd := range []int{oExitErr, oExitOK} {
 				ps = append(ps, program{strategy: st, probeNum: probe, retry: 5, start: 0, preHeld: []int{1, 1, 0}, tasks: [][]int{{oExitErr, oEntry}, {oExitErr}, {oEntry, probeEnd}},
 					eras: []era{{0, []int{0, 1}}, {5, []int{2}}, {1, []int{2}}, {4, []int{0}}}})
+			}
+		}
+		// a straggler from the closed era that outlives the whole outage: A and B fail while closed (open), a full retry
+		// timeout later P probes, 1 ms later P succeeds while Z (admitted while closed) fails, in any interleaving of the two
+		// completions; right after that Z asks again. If Z re-tripped the breaker its request is inside the new timeout.
+		for _, st := range []int{model.ErrorCount, model.ErrorRatio, model.SlowRequestRatio} {
+			for _, gap := range []uint64{0, 4} {
+				ps = append(ps, program{strategy: st, probeNum: probe, retry: 5, start: 0, preHeld: []int{1, 1, 1, 0}, tasks: [][]int{{oExitErr}, {oExitErr}, {oExitErr, oEntry}, {oEntry, oExitOK}},
+					eras: []era{{0, []int{0, 1}}, {5, []int{3}}, {1, []int{3, 2}}, {gap, []int{2}}}})
 			}
 		}
 		// open, deadline passed, a second open breaker behind it: the probe is blocked and rolled back while a request
